@@ -115,6 +115,7 @@ type Contracts struct {
 	DefaultFrames map[string][]string // property -> locations every uncontracted module callee is scanned to preserve
 	Extensions    []*FuncContract   // `extend func`: clauses merged into the base contract
 	AllMethods    []AllMethodsDecl  // every method of a type must be under contract for a property
+	RefWalks      []RefWalkDecl     // a traversal must read every field that can hold a reference
 	MapNonNil     map[string]bool   // "pkgpath::global": map whose stored values are non-nil
 }
 
@@ -132,6 +133,15 @@ type OnlyCalledByDecl struct {
 type WalkCompleteDecl struct {
 	Pkg, Root, Method string
 	Tags              []string
+}
+
+// RefWalkDecl: the traversal rooted at Root must read every struct field of the package's types
+// whose type is (a pointer to, a slice or a map of) one of RefTypes: a field it never reads is a
+// position whose references it cannot reach.
+type RefWalkDecl struct {
+	Pkg, Root string
+	RefTypes  []string
+	Tags      []string
 }
 
 type AllMethodsDecl struct {
@@ -153,7 +163,7 @@ func newContracts() *Contracts {
 // their package's (e.g. per-call error objects are not part of the shared document).
 var classOverride = map[string]string{}
 
-var declKeywords = map[string]bool{"walkcomplete": true, "onlycalledby": true, "default-frame": true, "extend": true, "allmethods": true, "global": true, "guarded": true, "class": true, "func": true, "iface": true, "fnfield": true, "pred": true, "spec": true, "axiom": true,
+var declKeywords = map[string]bool{"refwalk": true, "walkcomplete": true, "onlycalledby": true, "default-frame": true, "extend": true, "allmethods": true, "global": true, "guarded": true, "class": true, "func": true, "iface": true, "fnfield": true, "pred": true, "spec": true, "axiom": true,
 	"lemma": true, "ghost": true, "generate": true, "trusted": true}
 var clauseKeywords = map[string]bool{"requires": true, "ensures": true, "modifies": true, "panics_if": true, "loop": true,
 	"tag": true, "pure": true, "records": true, "preserves": true, "defines": true, "assuming": true, "secret": true, "untainted": true, "returns-untainted": true, "fresh": true, "reads": true, "option": true, "nosafety": true}
@@ -476,6 +486,19 @@ func (cs *Contracts) loadContractText(text, path, pkgPath string) error {
 				return fail("expected: walkcomplete @PROP <root> <method>")
 			}
 			cs.WalkComplete = append(cs.WalkComplete, WalkCompleteDecl{Pkg: pkgPath, Root: f[1], Method: f[2], Tags: []string{f[0][1:]}})
+		case "refwalk":
+			cur = nil
+			// refwalk @C16 <root function> : SchemaRef, ParameterRef, ...
+			f := strings.Fields(rest)
+			k := strings.Index(rest, " : ")
+			if len(f) < 3 || !strings.HasPrefix(f[0], "@") || k < 0 {
+				return fail("expected: refwalk @PROP <root> : RefType, ...")
+			}
+			d := RefWalkDecl{Pkg: pkgPath, Root: f[1], Tags: []string{f[0][1:]}}
+			for _, c := range strings.Split(rest[k+3:], ",") {
+				d.RefTypes = append(d.RefTypes, strings.TrimSpace(c))
+			}
+			cs.RefWalks = append(cs.RefWalks, d)
 		case "onlycalledby":
 			cur = nil
 			// onlycalledby @C11 <callee> : f1, f2
